@@ -618,6 +618,14 @@ C15Holds(c, r) ==
     \* writers that take less than they are offered (one byte, seven bytes per call, one interrupted
     \* call) still receive the whole document; a writer that stops taking bytes half way never
     \* makes to_writer report success, and has received a prefix of the document
+    [] c[2] = "writer_script" ->
+         /\ Len(r.out.w_scripts) = Len(r.scripts)
+         /\ \A i \in 1..Len(r.out.w_scripts) :
+              LET x == r.out.w_scripts[i]
+              IN /\ IsPrefix(x.w, r.out.json)
+                 /\ x.ok => x.w = r.out.json
+                 /\ x.after = 0
+                 /\ (~x.ok) <=> (x.hard > 0)
     [] c[2] = "writer_short_writes" ->
          /\ r.out.w_chunky.ok /\ r.out.w_chunky.w = r.out.json
          /\ r.out.w_chunk7.ok /\ r.out.w_chunk7.w = r.out.json
@@ -639,9 +647,12 @@ C15Holds(c, r) ==
     [] c[2] = "round_trip" ->
          LET v == [r.map EXCEPT !.contents = IF AllEmpty(@) THEN <<>> ELSE @]
              ok(b) == b # <<>> /\ SameMap(b[1], v)
-         IN ok(r.out.back_json) /\ ok(r.out.back_slice) /\ ok(r.out.back_reader)
+         IN /\ ok(r.out.back_json) /\ ok(r.out.back_slice) /\ ok(r.out.back_reader)
+            \* readers that hand out one byte, or seven bytes after one interrupted call, at a time
+            /\ ok(r.out.back_reader1) /\ ok(r.out.back_reader7)
     [] c[2] = "entry_points_agree" ->
-         r.out.json = r.out.slice /\ r.out.json = r.out.reader
+         /\ r.out.json = r.out.slice /\ r.out.json = r.out.reader
+         /\ r.out.json = r.out.reader1 /\ r.out.json = r.out.reader7
     [] c[2] = "document_reads_as_value" ->
          IF HasMappings(r.fields)
            THEN r.out.json.res = "ok" /\ SameMap(r.out.json.map[1], ValOfDoc(r.fields))
@@ -752,7 +763,7 @@ Checks(r, st) ==
            {<<"C07", "rope_renders_to_text">>} \cup
            (IF "replace" \in Kinds(TreeOf(r, st))
               THEN {<<"C05", "rope_is_splice">>} ELSE {})
-      [] r.op = "writer" -> {<<"C07", "writer">>}
+      [] r.op = "writer" -> IF r.kind = "script" THEN {<<"C07", "writer_script">>} ELSE {<<"C07", "writer">>}
       [] r.op = "stream" ->
            LET dom == PosDomain(TreeOf(r, st))
            IN (IF ~r.final
@@ -827,6 +838,7 @@ Checks(r, st) ==
               ELSE {})
       [] r.op = "to_json" ->
            {<<"C15", "serialises">>} \cup
+           (IF r.out.res = "ok" /\ "scripts" \in DOMAIN r THEN {<<"C15", "writer_script">>} ELSE {}) \cup
            (IF r.out.res = "ok"
               THEN {<<"C15", "writer_equals_json">>, <<"C15", "writer_short_writes">>,
                     <<"C15", "document_matches_value">>,
@@ -878,6 +890,15 @@ Holds(c, r, st) ==
             \* "flaky" refuses one call and accepts the later ones: the error is returned and nothing
             \* is written after it (what was written stays a prefix)
             /\ (r.kind \in {"err", "zero", "flaky"} /\ r.k < Len(buf)) => r.out.res = "err"
+    \* a writer that answers its first calls as a script of IoM says: what it holds is a prefix of buffer(),
+    \* Ok means everything, a hard error (or Ok(0)) is returned and the writer is not called again, short
+    \* writes and interrupted calls alone never make to_writer fail
+    [] c = <<"C07", "writer_script">> ->
+         LET buf == BufOf(t)
+         IN /\ IsPrefix(r.out.w, buf)
+            /\ r.out.res = "ok" => r.out.w = buf
+            /\ r.out.after = 0
+            /\ (r.out.res = "err") <=> (r.out.hard > 0)
     [] c = <<"C01", "chunks_have_text">> ->
          \A i \in 1..Len(r.out.ev) :
            r.out.ev[i].t = "C" => r.out.ev[i].x # <<>>
